@@ -8,6 +8,14 @@
            `reachable_never_both`: in every store state reachable by any command sequence respecting the callers'
            contract (whatever the client did before it crashed, whatever recovery did after), no key holds a data
            record next to a rollback record of one transaction.
+           `percolator_atomicity`: for EVERY command sequence — any number of clients, keys, crashes at any point (a crash
+           is just the owner's commands stopping; any prefix is a command sequence), any recovery traffic — in which the
+           commands carrying the transaction's start ts obey the owner/resolver discipline `Disc` (a secondary is
+           committed only after the primary is committed at that ts, or in the batch that commits the primary's prewrite
+           lock; rolled back only after the primary is rolled back, or with/on the primary), the final store is
+           all-or-nothing: no key has a data record of the transaction while another has a rollback record, and all its
+           data records carry one commit ts.  `Disc` is what rules 2/3 and the resolver rule of the C04 monitor check on
+           every recorded request stream of the real client.
   partial  `crash_ack_consistent` for the committer model (every crash index) is not built: the crash enumeration of
            checks/c02.py explores it on the real client and the judge applies the oracle to every final state.
 -/
@@ -16,6 +24,7 @@ import ClientGoVerif.Proofs.MvccLocks
 import ClientGoVerif.Proofs.Perc
 import ClientGoVerif.Proofs.MvccReach
 import ClientGoVerif.Proofs.MvccTemporal
+import ClientGoVerif.Proofs.MvccAtomic
 namespace CGV.Props.C02
 open CGV CGV.Mvcc CGV.Perc
 
@@ -67,6 +76,36 @@ theorem outcome_on_key_is_final (s : Store) (c : Cmd) (hs : SInv s) (hok : c.Ok 
     ∃ lab, c.labels k lab ∧ KStep (getEntry s.kv k) lab (getEntry (c.run s).kv k) ∧ lab.txn ≠ some T := by
   obtain ⟨lab, hlab, hst⟩ := (run_refines s c hs hok).2 k
   exact ⟨lab, hlab, hst, hst.final (hs.2 k) hrec⟩
+
+/-- all-or-nothing across keys, for every run: from the empty store, after ANY command list respecting the callers'
+    contract (`OkAll`) in which the commands of transaction `T` (primary `p`) obey the discipline and nothing removes
+    `T`'s record from the primary (`DiscAll`): (1) no key carries a data record of `T` while some key carries a rollback
+    record of `T`; (2) all data records of `T` have the same commit ts -/
+theorem percolator_atomicity (T : Nat) (p : Bytes) (cs : List Cmd) (hok : OkAll {} cs) (hd : DiscAll T p {} cs) :
+    let s := runAll {} cs
+    (∀ k1 k2 C, HasData (getEntry s.kv k1) T C → HasRb (getEntry s.kv k2) T → False) ∧
+    (∀ k1 k2 C1 C2, HasData (getEntry s.kv k1) T C1 → HasData (getEntry s.kv k2) T C2 → C1 = C2) := by
+  intro s
+  have ha : Atomic T p s := runAll_atomic T p {} cs SInv.empty hok hd (Atomic.empty T p)
+  have hr : Reachable s := Reachable.init.runAll cs hok
+  exact ⟨fun k1 k2 C h1 h2 => ha.never_mixed hr.inv k1 k2 C h1 h2,
+    fun k1 k2 C1 C2 h1 h2 => ha.one_commit_ts (hr.uniq p) k1 k2 C1 C2 h1 h2⟩
+
+/-- non-vacuity: prewrite of two keys, commit of the primary, commit of the secondary obey the discipline -/
+def demoRun : List Cmd :=
+  [Cmd.prewrite { mutations := [⟨.put, [0x61], [1], .none⟩, ⟨.put, [0x62], [2], .none⟩], primary := [0x61],
+                  startTS := 10, ttl := 3000 },
+   Cmd.commit [[0x61]] 10 20, Cmd.commit [[0x62]] 10 20]
+
+example : OkAll {} demoRun := by simp [OkAll, Cmd.Ok, demoRun]
+
+example : DiscAll 10 [0x61] {} demoRun := by
+  refine ⟨trivial, ?_, ?_, ?_, ?_, ?_, trivial⟩
+  · rintro lab (rfl | rfl) <;> simp [KLabel.txn, KLabel.keepsTxn, KLabel.keepsRecord]
+  · intro _; right; exact ⟨by simp, _, rfl, rfl, by decide⟩
+  · rintro lab (rfl | ⟨_, rfl⟩) <;> simp [KLabel.txn, KLabel.keepsTxn, KLabel.keepsRecord]
+  · intro _; left; exact ⟨⟨.put, 10, 20, [1]⟩, by decide, rfl, by decide, rfl⟩
+  · rintro lab (rfl | ⟨_, rfl⟩) <;> simp [KLabel.txn, KLabel.keepsTxn, KLabel.keepsRecord]
 
 /-- recovery by resolve removes the lock it resolves (commit or rollback alike) -/
 theorem resolve_kernel_removes_lock (e : Entry) (l : Lock) (k : Bytes) (T C : Nat) :
